@@ -60,8 +60,8 @@ var originAtoms = func() []originAtom {
 		"https://foo.*.example.com", "https://**.example.com", "https://*example.com", "https://example.com:8*", "https://example.com:*8", "http://*.127.0.0.1",
 		"https://*", "https://", "://example.com", "example.com", "https//example.com", "https:/example.com", "", "https://exa mple.com", "https://a..b",
 		"https://.example.com", "http://127.0.0.01", "http://1.2.3", "http://256.1.1.1", "https://example.com:-1", "https://example.com:+80",
-		"https://"+strings.Repeat("a.", 127)+"com", // 257-byte domain
-		"https://"+strings.Repeat("a", 64)+".com",  // 64-byte label
+		"https://"+strings.Repeat("a.", 127)+"com",  // 257-byte domain
+		"https://"+strings.Repeat("a", 64)+".com",   // 64-byte label
 		"https://*."+strings.Repeat("a.", 125)+"ab", // *. before a 252-byte domain
 		"1https://example.com", "https://exam­ple.com", "https://example.com\x00", "https://*.*.example.com", "*.example.com", "https://*.")
 	return as
@@ -413,7 +413,7 @@ func genAtomCfg(t *rapid.T, mix atomMix) Cfg {
 			}
 		}
 		c.MaxAge = pick(t, "maxage", []int{0, -1, 5, 86400, 86401, -2, 1 << 40, -(1 << 40), 600})
-		c.Status = pick(t, "status", []int{0, 200, 204, 299, 199, 300, 1, -204, 404, 1 << 40})
+		c.Status = pick(t, "status", []int{0, 200, 204, 299, 199, 300, 1, -204, 404, 1 << 40, 456, 555, 200 + 65536, 204 - 256, 204 + (1 << 32)})
 	}
 	fill()
 	if mix == mixOneViolation {
@@ -443,9 +443,9 @@ func plantOne(t *rapid.T, c *Cfg) {
 	case 3:
 		c.ResponseHeaders = insertAt(t, c.ResponseHeaders, pickName(t, "r", resHdrAtomsL, true))
 	case 4:
-		c.MaxAge = pick(t, "badmaxage", []int{86401, -2, 1 << 31, -86400, 100000})
+		c.MaxAge = pick(t, "badmaxage", []int{86401, -2, 1 << 31, -86400, 100000, 1 << 32, (1 << 32) + 5, -(1 << 32), (1 << 32) - 1})
 	case 5:
-		c.Status = pick(t, "badstatus", []int{199, 300, 1, 100, 404, -1, 2000})
+		c.Status = pick(t, "badstatus", []int{199, 300, 1, 100, 404, -1, 2000, 456, 555, 460, 200 + 65536, 204 - 256, 204 + (1 << 32)})
 	case 6:
 		c.PNA, c.PNANoCORS = true, true
 		// keep the rest valid under PNA: no "*", no insecure origin unless tolerated
